@@ -169,6 +169,11 @@ std::vector<K> keys_from_plan(const PlanText &p) {
     std::vector<K> v;
     v.reserve(p.keys.size());
     for (long double x : p.keys) v.push_back((K) x);
+    if (!std::is_sorted(v.begin(), v.end())) { // a defect of the generator or a hand-edited plan, never the library's fault
+        std::printf("X harness-error: the plan's keys are not sorted\n");
+        std::fflush(stdout);
+        std::_Exit(2);
+    }
     return v;
 }
 
@@ -234,7 +239,7 @@ std::vector<K> make_queries(const std::vector<K> &data, const QueryOpts &o) {
     } else {
         auto first_of = [&](size_t i) { return size_t(std::lower_bound(data.begin(), data.begin() + i + 1, data[i]) - data.begin()); };
         for (size_t t = 0; t < o.max_sampled; ++t) visit(first_of(r.below(n)));
-        for (size_t i = 0; i < std::min<size_t>(n, 8); ++i) { visit(first_of(i)); visit(first_of(n - 1 - i)); }
+        for (size_t i = 0; i < std::min<size_t>(n, 24); ++i) { visit(first_of(i)); visit(first_of(n - 1 - i)); }
         // around the chunk seams of every possible chunk count
         if (n >= (size_t(1) << 15))
             for (size_t c = 2; c <= 20; ++c)
@@ -341,16 +346,17 @@ std::vector<K> queries_for(const PlanText &p, const std::vector<K> &data, bool f
 
 /// Generates the key sequence of a plan. Returns the motif signature.
 template<typename K>
-std::string gen_keys_into(PlanText &p, size_t n, size_t eps, int chunks, Rng &cfg, Rng &work) {
+std::string gen_keys_into(PlanText &p, size_t n, size_t eps, int chunks, Rng &cfg, Rng &work, bool short_segments = false) {
     gen::KeyMap<K> km;
     km.draw(cfg);
     // VERIF_NO_AVOID=1 generates inside the predicates of the known findings too (exploration only, never registered)
     static const bool no_avoid = std::getenv("VERIF_NO_AVOID") != nullptr;
     km.allow_zero = no_avoid;
     gen::KeyGenParams kp;
-    kp.n = n; kp.U = km.U; kp.eps = eps; kp.chunks = chunks;
+    kp.n = n; kp.U = km.U; kp.eps = eps; kp.chunks = chunks; kp.short_segments = short_segments;
     std::string sig;
     auto pos = gen::gen_positions(kp, cfg, work, sig);
+    if (short_segments) sig += "shortseg+";
     if (std::is_same_v<K, double> && !no_avoid) gen::cap_runs(pos, 300, km.U);
     p.keys.clear();
     p.keys.reserve(pos.size());
